@@ -206,7 +206,13 @@ static void s_once(const plan_t *p)
     maxreach = 0;
     memset(ns, (int)(unsigned char)p->cfg[CF_JUNK], sizeof ns); memset(ws, (int)(unsigned char)p->cfg[CF_JUNK], sizeof ws);
     for (i = 0; i < NS; i++) {
+        if (p->cfg[CF_DECL]) {
+            if (i & 1) { DECLARE_CSTL_STRING(string, d); DECLARE_CSTL_STRING(wstring, w); ns[i] = d; ws[i] = w; }
+            else { ns[i] = (struct cstl_string)CSTL_STRING_INITIALIZER(cstl_string_char_t); ws[i] = (struct cstl_wstring)CSTL_STRING_INITIALIZER(cstl_wstring_char_t); }
+            PROBE("from_initializer_macro");
+        } else {
         cstl_string_init(&ns[i]); cstl_wstring_init(&ws[i]);
+        }
         mn[i].n = 0; mw[i].n = 0;
     }
 
@@ -572,6 +578,7 @@ static void s_exec(const plan_t *p)
 static void s_gen_main(prng_t *r, int mode, plan_t *p);
 static void s_gen(prng_t *r, int mode, plan_t *p)
 {
+    p->cfg[CF_DECL] = DECL_OF_INDEX();    /* one run in five starts from the initializer macros */
     if (mode == 110) { p->cfg[CF_JUNK] = 1 + prng_below(r, 254); p->cfg[CF_MAXLEN] = prng_below(r, 64); p->cfg[CF_NS] = 1; return; }
     s_gen_main(r, mode, p);
 }
